@@ -314,6 +314,9 @@ func (p *Path) bufRead(o *Obj, off *Term) *Term {
 	b := o.Buf
 	p.bufCheck(o)
 	if i, ok := p.cint(off); ok {
+		if i >= b.N && i < (b.N+7)/8*8 {
+			return p.tt.Fresh("padding", BV(8)) // allocation padding: arbitrary content
+		}
 		if i < 0 || i >= b.N {
 			p.fault("byte read out of buffer %s: %d/%d", o.Name, i, b.N)
 		}
@@ -330,8 +333,35 @@ func (p *Path) bufRead(o *Obj, off *Term) *Term {
 		}
 		return r
 	}
+	if b.Cells != nil {
+		// sparse read: only cells that are not constant zero matter
+		var idx []int
+		for i, c := range b.Cells {
+			if !(c.IsConst() && c.C == 0) {
+				idx = append(idx, i)
+				if len(idx) > 192 {
+					break
+				}
+			}
+		}
+		if len(idx) <= 192 {
+			r := p.tt.Const(8, 0)
+			for k := len(idx) - 1; k >= 0; k-- {
+				r = p.tt.Ite(p.tt.Eq(off, p.tt.Const(64, uint64(idx[k]))), b.Cells[idx[k]], r)
+			}
+			if b.N%8 == 0 {
+				return r
+			}
+			return p.tt.Ite(p.tt.Ult(off, p.tt.Const(64, uint64(b.N))), r, p.tt.Fresh("padding", BV(8)))
+		}
+	}
 	b.toArray(p.tt)
-	return p.tt.Select(b.Arr, off)
+	r := p.tt.Select(b.Arr, off)
+	if b.N%8 != 0 {
+		// bytes in the allocation padding are arbitrary
+		r = p.tt.Ite(p.tt.Ult(off, p.tt.Const(64, uint64(b.N))), r, p.tt.Fresh("padding", BV(8)))
+	}
+	return r
 }
 
 func (p *Path) bufWrite(o *Obj, off *Term, v *Term) {
@@ -382,11 +412,14 @@ func (p *Path) bufWriteLE(o *Obj, off *Term, v *Term, nbytes int) {
 }
 
 // bufBounds asserts (as a memory-fault check) that [off, off+n) lies in the buffer.
+// Allocations are padded to a multiple of 8 bytes (Go size classes, page-multiple mmaps):
+// an unsafe multi-byte access may extend into that padding without faulting; bytes read
+// there are unconstrained (see bufRead), writes there are faults.
 func (p *Path) bufBounds(o *Obj, off *Term, n int) {
 	if _, ok := p.cint(off); ok {
 		return // checked on access
 	}
-	lim := p.tt.Const(64, uint64(o.Buf.N-n))
+	lim := p.tt.Const(64, uint64((o.Buf.N+7)/8*8-n))
 	okc := p.tt.Ule(off, lim)
 	if !p.branch(okc) {
 		p.fault("memory access outside buffer %s (len %d)", o.Name, o.Buf.N)
